@@ -233,6 +233,17 @@ func (r *Run) logf(format string, args ...interface{}) {
 
 var logLive = os.Getenv("VERIF_LOG_LIVE") != ""
 
+// watchdogAfter: real-time limit of one run (VERIF_WATCHDOG_S overrides, for the self-test of the stall handling).
+func watchdogAfter() time.Duration {
+	if v := os.Getenv("VERIF_WATCHDOG_S"); v != "" {
+		var n int
+		if _, err := fmt.Sscanf(v, "%d", &n); err == nil && n > 0 {
+			return time.Duration(n) * time.Second
+		}
+	}
+	return 120 * time.Second
+}
+
 func now() uint64 { return uint64(time.Now().Unix()) }
 
 // BadgerOptions translates a Config.
@@ -1646,8 +1657,8 @@ func executeWith(t *testing.T, c *Case, prof *Profile, keepHist bool, pre func(*
 	go func() {
 		select {
 		case <-doneCh:
-		case <-time.After(120 * time.Second):
-			fmt.Fprintf(os.Stderr, "WATCHDOG: run stuck for 120s real time; case:\n%s\n", c.JSON())
+		case <-time.After(watchdogAfter()):
+			fmt.Fprintf(os.Stderr, "WATCHDOG: run stuck for %v real time; case:\n%s\n", watchdogAfter(), c.JSON())
 			dumpAllStacks()
 			os.Exit(2)
 		}
